@@ -1,23 +1,158 @@
-import RgVerif.Spec.ReplaceAll
-import RgVerif.Model.Replace
+import RgVerif.Lemmas.ReplaceFold
 /-
-C19 — property theorems (only statements that decide the property live here).
+C19 — replacement output equals the regex library's replace-all of each matching line.
+Only the theorems that decide the property live here; helper lemmas are in `Lemmas/`.
+
+Model  : `Interp.interpolate` (crates/matcher/src/interpolate.rs), `Matcher.iterGo`
+         (Matcher::try_captures_iter_at), `Replace.replaceWithCapturesInContext`,
+         `Replace.replaceAllLine`, `Replace.printMatched` (crates/printer/src/util.rs, standard.rs).
+Spec   : `ReplaceSpec.expand` (regex crate's template grammar), `ReplaceSpec.allMatches`
+         (regex crate's match iterator), `ReplaceSpec.replaceAllSpec`.
 -/
 namespace RgVerif.Props.C19
-open RgVerif RgVerif.Interp RgVerif.ReplaceSpec
+open RgVerif RgVerif.Interp RgVerif.ReplaceSpec RgVerif.Matcher RgVerif.Replace
+open RgVerif.Lemmas.Interp RgVerif.Lemmas.ReplaceIter RgVerif.Lemmas.ReplaceFold
+
+/-! ## 1. Template expansion -/
+
+/-- Full statement: ripgrep's interpolation is the regex crate's expansion for every template. -/
+def interpolate_eq_spec_full : Prop :=
+  ∀ (env : Env) (t : Bytes), EnvOk env → interpolate env t = expand env t
+
+/-- It fails on the current tree (finding F12): `${}` is printed literally. -/
+theorem interpolate_eq_spec_full_fails : ¬ interpolate_eq_spec_full := by
+  intro h
+  let env : Env := { group := fun _ => none, nameIdx := fun _ => none }
+  have henv : EnvOk env := ⟨fun _ _ => rfl, fun _ _ => rfl⟩
+  have := h env [36, 123, 125] henv
+  have h1 : findCapRef [36, 123, 125] = none := by decide
+  have h2 : refAt [36, 123, 125] = some (toRefUsize [], 3) := by decide
+  rw [interpolate_d_none env [123, 125] (by intro r' hr; cases hr) h1,
+      interpolate_other env [125] (by decide), interpolate_other env [] (by decide), interpolate_nil] at this
+  unfold expand at this
+  rw [tokens_d_some [123, 125] (by intro r' hr; cases hr) h2] at this
+  simp [tokens_nil, Tok.out, Env.expand, toRefUsize, parseBounded, env] at this
+
+/-- **Proved part**: for every template in which each closed `${…}` holds a non-empty name over
+`[0-9A-Za-z_]` (`braceOk`, decidable), and every capture environment of a real regex (`EnvOk`),
+numbered and named references, braces and `$$` expand exactly as the regex crate defines. -/
+theorem interpolate_eq_spec (env : Env) (henv : EnvOk env) (t : Bytes) (hok : braceOk t = true) :
+    interpolate env t = expand env t :=
+  interpolate_eq_expand_aux env henv t.length t (Nat.le_refl _) hok
+
+/-- Non-vacuity: the guard admits templates using every form of reference
+(`a$1${name}$$${2}x`), and a non-trivial environment satisfies `EnvOk`. -/
+example : braceOk [97, 36, 49, 36, 123, 110, 97, 109, 101, 125, 36, 36, 36, 123, 50, 125, 120] = true ∧
+    EnvOk { group := fun i => if i < 3 then some [65 + i] else none,
+            nameIdx := fun n => if n = [110, 97, 109, 101] then some 2 else none } := by
+  refine ⟨by decide, ?_, ?_⟩
+  · intro n hn
+    have : ¬ n < 3 := by unfold u32Max at hn; omega
+    simp [this]
+  · intro name h
+    by_cases hname : name = [110, 97, 109, 101]
+    · subst hname; revert h; decide
+    · simp [hname]
 
 /-- Templates without `$` are copied verbatim. -/
 theorem interpolate_no_dollar (env : Env) (t : Bytes) (h : 36 ∉ t) : interpolate env t = t := by
   induction t with
-  | nil => simp [interpolate]
+  | nil => exact interpolate_nil env
   | cons b rest ih =>
     have hb : b ≠ 36 := by intro hb; apply h; simp [hb]
     have hr : 36 ∉ rest := by intro hr; apply h; simp [hr]
-    unfold interpolate
-    split
-    · simp at *
-    · simp_all
-    · simp_all
-    · simp_all
+    rw [interpolate_other env rest hb, ih hr]
+
+/-! ## 2. Match iteration and replace-all -/
+
+/-- The matches handed to the callback by `Matcher::captures_iter_at` are exactly those of the regex
+crate's iterator (leftmost, non-overlapping, an empty match never directly after another match),
+for every matcher whose answers are sane and deterministic. -/
+theorem iteration_eq_regex_iterator {capsAt : Nat → Option Caps} {len : Nat} (hs : Sane capsAt len)
+    (start : Nat) : collect capsAt len (len + 2) start none [] = allMatches capsAt len start :=
+  collect_eq_allMatches hs start
+
+/-- The printer's replacement buffer for the range `[rs, re)`: every match starting before `re` is
+replaced by the interpolated template, everything else is copied verbatim. -/
+theorem replace_in_context_eq (capsAt : Nat → Option Caps) (names : List (Bytes × Nat))
+    (bytes : Bytes) (rs re : Nat) (tmpl : Bytes) (hs : Sane capsAt bytes.length) :
+    (replaceWithCapturesInContext capsAt names bytes rs re tmpl).dst =
+      replaceAllSpec bytes (fun c => interpolate (envOf bytes names c) tmpl)
+        ((allMatches capsAt bytes.length rs).takeWhile (fun c => decide ((sp c).s < re)))
+        rs (min bytes.length re) :=
+  replace_eq_spec capsAt names bytes rs re tmpl hs
+
+/-- Full statement at line level: the buffer is the replace-all over *all* matches of the haystack. -/
+def C19_full : Prop :=
+  ∀ (capsAt : Nat → Option Caps) (names : List (Bytes × Nat)) (bytes : Bytes) (rs re : Nat) (tmpl : Bytes),
+    Sane capsAt bytes.length →
+    (replaceWithCapturesInContext capsAt names bytes rs re tmpl).dst =
+      replaceAllSpec bytes (fun c => interpolate (envOf bytes names c) tmpl)
+        (allMatches capsAt bytes.length rs) rs (min bytes.length re)
+
+/-- the matcher of the pattern `a*` on the haystack `b`: an empty match at 0 and at 1 -/
+def emptyEverywhere : Nat → Option Caps :=
+  fun p => if p ≤ 1 then some ⟨[some ⟨p, p⟩]⟩ else none
+
+theorem emptyEverywhere_sane : Sane emptyEverywhere 1 := by
+  constructor
+  · intro p c h; unfold emptyEverywhere at h; split at h <;> simp_all [sp, Caps.get]; subst h; simp
+  · intro p c h; unfold emptyEverywhere at h; split at h <;> simp_all [sp, Caps.get]; subst h; simp
+  · intro p c h; unfold emptyEverywhere at h; split at h <;> simp_all [sp, Caps.get]; subst h; simpa
+  · intro p p' c h h1 h2
+    unfold emptyEverywhere at h ⊢
+    split at h
+    · injection h with h; subst h
+      simp [sp, Caps.get] at h2
+      have : p' = p := by omega
+      subst this; simp [*]
+    · simp at h
+
+/-- It fails on the current tree (finding F6): on an unterminated last line the empty match at the very
+end is dropped (`m.start() >= range.end`): `printf b | rg -r X 'a*'` prints `Xb`, replace-all gives `XbX`. -/
+theorem C19_full_fails : ¬ C19_full := by
+  intro h
+  have hfull := h emptyEverywhere [] [98] 0 1 [88] emptyEverywhere_sane
+  have hpart := replace_in_context_eq emptyEverywhere [] [98] 0 1 [88] emptyEverywhere_sane
+  rw [hpart] at hfull
+  have hexp : (fun c => interpolate (envOf [98] [] c) [88]) = fun _ => [88] := by
+    funext c; exact interpolate_no_dollar _ [88] (by decide)
+  rw [hexp] at hfull
+  revert hfull
+  decide
+
+/-- **Proved part** (the line carries its terminator, so `re` lies beyond the cut haystack): the
+replacement buffer is the regex crate's replace-all of the haystack from `rs` on, with the reference
+template grammar, unmatched text intact. -/
+theorem C19_partial (capsAt : Nat → Option Caps) (names : List (Bytes × Nat))
+    (bytes : Bytes) (rs re : Nat) (tmpl : Bytes) (hs : Sane capsAt bytes.length)
+    (hterm : bytes.length < re) (hok : braceOk tmpl = true)
+    (henv : ∀ c, EnvOk (envOf bytes names c)) :
+    (replaceWithCapturesInContext capsAt names bytes rs re tmpl).dst =
+      replaceAllSpec bytes (fun c => expand (envOf bytes names c) tmpl)
+        (allMatches capsAt bytes.length rs) rs bytes.length := by
+  rw [replace_in_context_eq capsAt names bytes rs re tmpl hs]
+  have hall : ∀ c ∈ allMatches capsAt bytes.length rs, decide ((sp c).s < re) = true := by
+    intro c hc
+    obtain ⟨p, hp⟩ := specIter_mem hc
+    have h1 := hs.le p c hp
+    have h2 := hs.bound p c hp
+    simp; omega
+  rw [takeWhile_all _ _ hall]
+  have hmin : min bytes.length re = bytes.length := by omega
+  rw [hmin]
+  have hexp : (fun c => interpolate (envOf bytes names c) tmpl) =
+      fun c => expand (envOf bytes names c) tmpl := by
+    funext c; exact interpolate_eq_spec _ (henv c) tmpl hok
+  rw [hexp]
+
+/-- Lines without a match are never altered: with no match the buffer is the range itself. -/
+theorem unmatched_text_intact (capsAt : Nat → Option Caps) (names : List (Bytes × Nat))
+    (bytes : Bytes) (rs re : Nat) (tmpl : Bytes) (hs : Sane capsAt bytes.length)
+    (hnone : allMatches capsAt bytes.length rs = []) :
+    (replaceWithCapturesInContext capsAt names bytes rs re tmpl).dst =
+      slice bytes rs (min bytes.length re) := by
+  rw [replace_in_context_eq capsAt names bytes rs re tmpl hs, hnone]
+  simp [replaceAllSpec, slice]
 
 end RgVerif.Props.C19
